@@ -27,6 +27,10 @@ type BuilderRule struct {
 }
 
 func (rule BuilderRule) AsRewriteRule(pkg string) (builder.RewriteRule, error) {
+	if err := oneMemberOnly("builder rules", rule); err != nil {
+		return nil, err
+	}
+
 	if rule.Omit != nil {
 		selector, err := rule.Omit.AsSelector(pkg)
 		if err != nil {
